@@ -1,6 +1,7 @@
 package symgo
 
 import (
+	"fmt"
 	"go/token"
 	"go/types"
 	"reflect"
@@ -156,4 +157,81 @@ func init() {
 	}
 	intrinsics["internal/reflectlite.TypeOf"] = typeOf
 	intrinsics["reflect.TypeOf"] = typeOf
+}
+
+// RValue is a minimal reflect.Value: only usable directly (ValueOf(x).Kind(), .IsNil(), .Len(), .String()).
+type RValue struct{ I Iface }
+
+func init() {
+	intrinsics["reflect.ValueOf"] = func(fr *frame, a []Value) Value { return RValue{a[0].(Iface)} }
+	intrinsics["(reflect.Value).Kind"] = func(fr *frame, a []Value) Value {
+		rv, ok := a[0].(RValue)
+		if !ok {
+			fr.p.unsupported("reflect.Value not produced by ValueOf")
+		}
+		if rv.I.T == nil {
+			return fr.w.tt.BVC(64, 0)
+		}
+		return fr.w.tt.BVC(64, uint64(reflectKind(rv.I.T)))
+	}
+	intrinsics["(reflect.Value).IsValid"] = func(fr *frame, a []Value) Value {
+		rv, _ := a[0].(RValue)
+		return fr.w.tt.BoolC(rv.I.T != nil)
+	}
+	intrinsics["(reflect.Value).IsNil"] = func(fr *frame, a []Value) Value {
+		rv, ok := a[0].(RValue)
+		if !ok || rv.I.T == nil {
+			fr.p.unsupported("reflect.Value.IsNil on invalid value")
+		}
+		switch v := rv.I.V.(type) {
+		case *Value:
+			return fr.w.tt.BoolC(v == nil)
+		case *Map:
+			return fr.w.tt.BoolC(v == nil)
+		case Slice:
+			return fr.w.tt.BoolC(v == nil)
+		case Iface:
+			return fr.w.tt.BoolC(v.T == nil)
+		case *Chan:
+			return fr.w.tt.BoolC(v == nil)
+		}
+		if isNilFunc(rv.I.V) {
+			return fr.w.tt.True
+		}
+		fr.p.unsupported("reflect.Value.IsNil on %T", rv.I.V)
+		return nil
+	}
+	intrinsics["(reflect.Value).Len"] = func(fr *frame, a []Value) Value {
+		rv, _ := a[0].(RValue)
+		switch v := rv.I.V.(type) {
+		case Slice:
+			return fr.w.bv64(int64(len(v)))
+		case Array:
+			return fr.w.bv64(int64(len(v)))
+		case Str:
+			return fr.w.bv64(int64(v.Len()))
+		case *Map:
+			if v == nil {
+				return fr.w.bv64(0)
+			}
+			return fr.w.bv64(int64(v.Len()))
+		}
+		fr.p.unsupported("reflect.Value.Len on %T", rv.I.V)
+		return nil
+	}
+	intrinsics["(reflect.Value).String"] = func(fr *frame, a []Value) Value {
+		rv, _ := a[0].(RValue)
+		if s, ok := rv.I.V.(Str); ok {
+			return s
+		}
+		return Str{S: "<" + fmt.Sprint(rv.I.T) + " Value>"}
+	}
+	intrinsics["(reflect.Value).Type"] = func(fr *frame, a []Value) Value {
+		rv, _ := a[0].(RValue)
+		return fr.w.mkRType(rv.I.T)
+	}
+	intrinsics["(reflect.Value).Interface"] = func(fr *frame, a []Value) Value {
+		rv, _ := a[0].(RValue)
+		return rv.I
+	}
 }
